@@ -8,7 +8,7 @@ import json
 from lib import codec as C
 from lib.codec import asn1tools
 from lib import runner
-from lib.common import Compiled, bounds_for, run_pristine
+from lib.common import Compiled, bounds_for, PristineServer
 import corpus
 from pyfront import shimmed, unshimmed, SymBytes
 from symcore import HarnessError, Inconclusive
@@ -212,19 +212,29 @@ def _replay_decode(arg):
     return {'outcome': outcome, 'lines': lines[0]}
 
 
+_SERVER = []
+
+
 def replay(v):
     job = v['job']
     data = v['witness']['inputs']['data']
-    r = run_pristine('checks.C08', '_replay_decode', dict(template=job['template'], codec=job['codec'], data=data),
-                     timeout=30, cpu_s=10, mem_mb=1024)
+    if not _SERVER:
+        _SERVER.append(PristineServer())
+    # CPU and address-space limits are armed in a forked child of a pristine interpreter that has
+    # already imported everything: they measure the decode call only
+    r = _SERVER[0].call('checks.C08', '_replay_decode', dict(template=job['template'], codec=job['codec'], data=data),
+                        cpu_s=10, mem_mb=1024, wall_s=600)
     n = len(data) // 2
-    if r['status'] == 'timeout' or (r['status'] == 'crash' and r.get('returncode') in (-9, -24, 137, 152)):
-        return True, 'decode(%s) with codec %s of %s did not finish within 10 s CPU (%s)' % (
-            data, job['codec'], job['template'], r['status'])
+    if r['status'] == 'cpu':
+        return True, 'decode(%s) with codec %s of %s did not finish within 10 s CPU' % (
+            data, job['codec'], job['template'])
+    if r['status'] == 'memory':
+        return True, 'decode(%s) exhausted 1 GiB of additional address space' % data
+    if r['status'] == 'wall':
+        # 10 minutes of wall clock without using 10 s of CPU: the machine, not the decoder
+        raise HarnessError('replay of decode(%s) got no CPU within 600 s wall' % data)
     if r['status'] != 'ok':
-        if 'MemoryError' in str(r['result']):
-            return True, 'decode(%s) exhausted a 1 GiB address space: %s' % (data, str(r['result'])[-200:])
-        return False, 'replay crashed: %s' % (r['result'],)
+        raise HarnessError('replay process failed: %s' % (str(r['result'])[-300:],))
     res = r['result']
     if res['outcome'] == 'MemoryError':
         return True, 'decode(%s) raised MemoryError under a 1 GiB limit' % data
